@@ -597,6 +597,9 @@ func runC08(p *core.Prog, r *core.Report, tier string) {
 	}
 	r.Floor("C08.j node version lookups", nJ, 1)
 
+	// ---- (k) one failing node does not abort the submissions to the others ----
+	checkNoFailFastContext(p, r, "C08.k", []string{"services/submitter/"}, "a node that rejects the submission aborts the deliveries still in flight to the other nodes")
+
 	// ---- (i) Scatter ----
 	if sc := p.Func("util", "", "Scatter"); sc != nil {
 		checkScatter(p, r, ds, sc)
